@@ -19,6 +19,16 @@ def run(rep, tier, seed, replay):
     # plus small invariant shapes
     if replay is None:
         exprs += [e for e in ["(?i)ǅ", "(?i)1", "(?i)中", "(?i)ß", "a[/]", "[a]", "[a-a]", "{a,a}", "<a:2>", "<ab:2,2>", "{a,b}", "(?i)K", "(?i)ſ", "a/b", "/a", "{a/b}", "<a/:1>b", "[!a]"] if e not in exprs]
+    if replay is None:
+        # one literal made of cased and caseless characters of different scripts, in either order, under either flag
+        cased = ["a", "Ab", "x", "É", "ǅ", "σ", "k"]
+        caseless = ["中", "–", "·", "°", "愛", "1", "_", "日本"]
+        mixed = []
+        for c0 in cased:
+            for d0 in caseless:
+                for body in (c0 + d0, d0 + c0, c0 + d0 + c0, d0 + c0 + d0):
+                    mixed += ["(?i)" + body, "(?-i)" + body, "x/(?i)" + body, "{(?i)%s,(?-i)%s}" % (body, body), "<(?i)%s:2>" % body]
+        exprs += [e for e in mixed if e not in set(exprs)]
     P = lib.Pair(exprs)
     h, m = P.h, P.m
     rep.evaluations = len(exprs)
